@@ -132,11 +132,11 @@ class RespRun:
         self._wire = out
         return out
 
-    def dropped_by_duplicate_guard(self) -> set:
+    def dropped_by_duplicate_guard(self) -> List[Tuple[bytes, float]]:
         """(bytes, arrival ms) of the datagrams the listener's documented duplicate guard drops unseen: byte-identical to the last
         datagram *handled* on that socket less than a second before (a query with a QU question is let through)."""
         last: Dict[int, Tuple[bytes, float]] = {}
-        dropped = set()
+        dropped: List[Tuple[bytes, float]] = []      # with repeats: two copies may arrive at one instant
         for a in self.arrivals:
             prev = last.get(a['sock'])
             if prev is not None and prev[0] == a['data'] and a['t_ms'] - 1000 < prev[1]:
@@ -145,7 +145,7 @@ class RespRun:
                 except wire.Reject:
                     m = None
                 if m is None or m['flags'] & 0x8000 or not any(q_['cls'] & 0x8000 for q_ in m['qd']):
-                    dropped.add((a['data'], a['t_ms']))
+                    dropped.append((a['data'], a['t_ms']))
                     continue
             last[a['sock']] = (a['data'], a['t_ms'])
         return dropped
